@@ -179,16 +179,17 @@ def next_level_instances(ctx) -> List[Tuple[KitClass, Optional[KitClass], KitCla
     inv = [k for k in ctx.inventory if k.concrete]
     out = []
     for v in inv:
-        if v.role != "vector" or v.is_part:
+        if v.role != "vector" or v.is_part or v.level is None:
             continue
-        if v.structure_owner is not v.ci:
+        # a structure written in the kit (in the class or in a base class of the kit), not the generic one of moclo.core
+        if v.structure_owner is None or v.structure_owner.module is None or not v.structure_owner.module.name.startswith("moclo.kits."):
             continue
         if _delegates_to_super(v):
             continue
         cands = [
             m for m in inv
             if m.role == "module" and not m.is_part and m.ci.module is v.ci.module and m.level == v.level
-            and m.structure_owner is not m.ci
+            and (m.structure_owner is None or m.structure_owner.module is None or not m.structure_owner.module.name.startswith("moclo.kits."))
         ]
         if len(cands) != 1:
             raise AnalysisError(
@@ -197,12 +198,13 @@ def next_level_instances(ctx) -> List[Tuple[KitClass, Optional[KitClass], KitCla
         out.append((v, None, cands[0]))
     # products that carry the next level's sites themselves
     for m in inv:
-        if m.role == "module" and not m.is_part and m.structure_owner is m.ci and not _delegates_to_super(m):
+        if m.role == "module" and not m.is_part and m.level is not None and m.structure_owner is not None and m.structure_owner.module is not None \
+                and m.structure_owner.module.name.startswith("moclo.kits.") and not _delegates_to_super(m):
             # the vector of the same level+1 in the same module, and the module class of that level
             vecs = [v for v in inv if v.role == "vector" and not v.is_part and v.ci.module is m.ci.module
                     and v.level == (m.level + 1) and v.cutter == m.cutter]
             nxt = [x for x in inv if x.role == "module" and not x.is_part and x.ci.module is m.ci.module
-                   and x.level == m.level + 1 and x.structure_owner is not x.ci]
+                   and x.level == m.level + 1 and not (x.structure_owner is not None and x.structure_owner.module is not None and x.structure_owner.module.name.startswith("moclo.kits."))]
             if len(vecs) != 1 or len(nxt) != 1:
                 raise AnalysisError("cannot pair product %s with its vector / next level" % m.name)
             out.append((vecs[0], m, nxt[0]))
@@ -366,8 +368,30 @@ def screen_obligation(ctx, kc: KitClass, rule: str, informational: bool = False)
     rcsite = _rc(site)
     pat = kc.pattern
     nsites = len(pat.count_literal(site)) + len(pat.count_literal(rcsite))
-    screens = screen_of(ctx, raw)
     where = raw.where()
+    info = getattr(ctx, "k21_info", {}).get(raw.qualname)
+    if info is not None:
+        # decided from the abstract evaluation of the resolved _match (kernel K21): robust to named intermediates and early returns
+        det = []
+        dig = info["digests"]
+        if not dig:
+            det.append("the matched region is never digested")
+        else:
+            if not all(d["own_cutter"] for d in dig):
+                det.append("the digest does not use the class's own cutter")
+            if not all(d["whole_match"] for d in dig):
+                det.append("the digested region is not the whole match (group 0)")
+            if any(d["extra_args"] for d in dig):
+                det.append("catalyse is called with extra arguments")
+        rs = [x for x in info["raises"] if x["min_fragments"] is not None]
+        if not rs:
+            det.append("no path rejects a record on the number of fragments")
+        else:
+            thr = min(x["min_fragments"] for x in rs)
+            if thr != nsites + 2:
+                det.append("the screen fires from %s fragments on, but the pattern carries %d site(s): a digest with one extra cut has %d fragments" % (thr, nsites, nsites + 2))
+        return r.ob(rule, kc.name, not det, "; ".join(det) + " [%s]" % raw.qualname, where)
+    screens = screen_of(ctx, raw)
     if not screens:
         return r.ob(rule, kc.name, False,
                     "_match resolves to %s which has no illegal-site screen (len(cutter.catalyse(...)) guard raising)" % raw.qualname,
